@@ -647,7 +647,11 @@ type EventTable struct {
 	args  map[string][]string // event -> arg sorts
 }
 
-func NewEventTable() *EventTable { return &EventTable{args: map[string][]string{}} }
+func NewEventTable() *EventTable {
+	e := &EventTable{args: map[string][]string{}}
+	e.Add("Send", []string{"Int", "Int"}) // built in: channel send (channel, value)
+	return e
+}
 
 func (e *EventTable) Add(name string, sorts []string) {
 	if _, ok := e.args[name]; ok {
